@@ -2,6 +2,7 @@ import Gallia.Proofs.Lemmas.SessionScan
 import Gallia.Proofs.Lemmas.SessionScanBfs
 import Gallia.Proofs.Lemmas.SessionScanReport
 import Gallia.Proofs.Lemmas.SessionScanSorted
+import Gallia.Gen.C09
 /-
   C09 — the session scan reports exactly the sessions reachable within the depth limit.
 
@@ -13,6 +14,14 @@ import Gallia.Proofs.Lemmas.SessionScanSorted
 -/
 namespace Gallia.C09
 open Gallia.SessionScan
+
+/-- (T) regenerated from the AST of `sessions.py` on every run: `set_session_with_hooks_handling` makes exactly two
+    `ECU.set_session` calls, the first with `skip_hooks=True`, the second with `skip_hooks=False`, both with
+    `use_db=False`, and the scanner calls `set_session` nowhere else - so a scan never replays session transitions stored
+    by an earlier scan of the same target, as the model (which has no database) assumes -/
+theorem calls_agree :
+    Gallia.Gen.C09.hooksHandlingCalls = setSessionCalls ∧ Gallia.Gen.C09.setSessionCallsInFile = setSessionCalls.length := by
+  decide
 
 /-- the graph the theorems are about, spelled out: an edge is positive iff the ECU answers `10 u` positively, or
     `--with-hooks` is given, the plain attempt is refused with conditionsNotCorrect and the hooked attempt succeeds -/
